@@ -193,3 +193,19 @@ vr_soft_fail(const char *sig, const char *fmt, ...)
 		vr->nknown++;
 	}
 }
+
+void
+vr_trace(const char *fmt, ...)
+{
+	static int on = -1;
+	if (on < 0)
+		on = getenv("VERIF_TRACE") != NULL;
+	if (!on)
+		return;
+	va_list ap;
+	va_start(ap, fmt);
+	fprintf(stderr, "TRACE op%d(%s): ", vr->opidx, vr->lastop);
+	vfprintf(stderr, fmt, ap);
+	fprintf(stderr, "\n");
+	va_end(ap);
+}
